@@ -1,6 +1,6 @@
 // Generator driver: runs /repo's current v2 generator on a JSON manifest (no jar needed).
 //
-//	gen <manifest.json> <outDir>
+//	gen <manifest.json> <outDir> [withPackageRoot]
 package main
 
 import (
@@ -21,7 +21,8 @@ func main() {
 		fmt.Fprintln(os.Stderr, "GENERATOR-ERROR: read manifest:", err)
 		os.Exit(1)
 	}
-	if err := cmd.GenerateCode(os.Args[2], []*cmd.GoRestliManifest{m}, false); err != nil {
+	withPackageRoot := len(os.Args) > 3 && os.Args[3] == "withPackageRoot"
+	if err := cmd.GenerateCode(os.Args[2], []*cmd.GoRestliManifest{m}, withPackageRoot); err != nil {
 		fmt.Fprintf(os.Stderr, "GENERATOR-ERROR: %+v\n", err)
 		os.Exit(1)
 	}
